@@ -12,6 +12,7 @@ package parser
 import (
 	"fmt"
 	"os"
+	"reflect"
 	"sort"
 	"strings"
 	"testing"
@@ -516,6 +517,9 @@ func c20Gen(r *vf.Rand) c20Case {
 		}
 	}
 
+	// one process environment holds a name once
+	c.Env = c20DedupNames(c.Env)
+
 	// enumeration order
 	for i := len(c.Env) - 1; i > 0; i-- {
 		j := r.Intn(i + 1)
@@ -525,6 +529,23 @@ func c20Gen(r *vf.Rand) c20Case {
 	c.HasFile = len(c.File) > 0
 
 	return c
+}
+
+func c20DedupNames(vars []c20Var) []c20Var {
+	last := map[string]int{}
+	for i, v := range vars {
+		last[v.Name] = i
+	}
+
+	out := vars[:0:0]
+
+	for i, v := range vars {
+		if last[v.Name] == i {
+			out = append(out, v)
+		}
+	}
+
+	return out
 }
 
 func c20Malform(r *vf.Rand, c *c20Case, leaves []c20Leaf) {
@@ -593,15 +614,15 @@ func c20TypedRender(v any) string {
 }
 
 // c20CoqKey renders a Go map key: '.'-separated segments, "#<hash>" suffix as
-// the number of the variable the hash was computed from
-func c20CoqKey(k string, tags map[string]int) string {
+// its pre-image (normalised name and value text of the variable it was computed from)
+func c20CoqKey(k string, tags map[string][2]string) string {
 	tag := "None"
 
 	if i := strings.Index(k, "#"); i >= 0 {
-		if n, ok := tags[k[i+1:]]; ok {
-			tag = fmt.Sprintf("(Some %d)", n)
+		if nv, ok := tags[k[i+1:]]; ok {
+			tag = "(Some " + vf.CoqPair(vf.CoqStr(nv[0]), vf.CoqStr(nv[1])) + ")"
 		} else {
-			tag = "(Some 999)"
+			tag = "(Some (\"?\"%string, \"?\"%string))"
 		}
 
 		k = k[:i]
@@ -610,7 +631,7 @@ func c20CoqKey(k string, tags map[string]int) string {
 	return "(" + vf.CoqStrs(strings.Split(k, ".")) + ", " + tag + ")"
 }
 
-func c20CoqCfg(v any, tags map[string]int) string {
+func c20CoqCfg(v any, tags map[string][2]string) string {
 	switch t := v.(type) {
 	case nil:
 		return "Nil"
@@ -640,7 +661,7 @@ func c20CoqCfg(v any, tags map[string]int) string {
 	return "(Leaf " + vf.CoqStr(c20TypedRender(v)) + ")"
 }
 
-func c20CoqTop(m map[string]any, tags map[string]int) string {
+func c20CoqTop(m map[string]any, tags map[string][2]string) string {
 	keys := make([]string, 0, len(m))
 	for k := range m {
 		keys = append(keys, k)
@@ -658,7 +679,7 @@ func c20CoqTop(m map[string]any, tags map[string]int) string {
 
 func c20Typed(text string) any { return toRealType(text) }
 
-func c20LoadOnce(c c20Case, file string, tags map[string]int) (out string) {
+func c20LoadOnce(c c20Case, file string, tags map[string][2]string) (out string) {
 	defer func() {
 		if p := recover(); p != nil {
 			out = "OPanic"
@@ -672,24 +693,38 @@ func c20LoadOnce(c c20Case, file string, tags map[string]int) (out string) {
 		h.set(k, dflt.kids[k].goValue())
 	}
 
-	opts := []Option{WithEnvPrefix(c20Prefix)}
+	// the merged tree is observed where the loader hands it to the decoder: a decode hook
+	// (a regular option of the loader) sees it as the input for the whole result value.
+	// (Observing the decoded `any` fields instead is not exact: the merge works in place on
+	// slices that the struct provider shares with the holder, so mapstructure would decode
+	// into whatever element types an earlier source left there.)
+	captured := ""
+	holderType := reflect.TypeOf(c20Holder{})
+	hook := func(_ reflect.Type, to reflect.Type, data any) (any, error) {
+		if to == holderType {
+			if m, ok := data.(map[string]any); ok {
+				captured = "(OTree " + c20CoqTop(m, tags) + ")"
+			}
+		}
+
+		return data, nil
+	}
+
+	opts := []Option{WithEnvPrefix(c20Prefix), WithDecodeHookFunc(hook)}
 	if file != "" {
 		opts = append(opts, WithConfigFile(file))
 	}
 
-	if err := New(opts...).Load(&h); err != nil {
+	err := New(opts...).Load(&h)
+	if captured != "" {
+		return captured
+	}
+
+	if err != nil {
 		return "OErr"
 	}
 
-	res := map[string]any{}
-
-	for _, f := range c20Fields {
-		if v := h.get(f); v != nil {
-			res[f] = v
-		}
-	}
-
-	return "(OTree " + c20CoqTop(res, tags) + ")"
+	return "OErr"
 }
 
 func c20Run(c c20Case, dir string) (c20Obs, string, string) {
@@ -704,10 +739,8 @@ func c20Run(c c20Case, dir string) (c20Obs, string, string) {
 		}
 	}()
 
-	// hash suffix -> number of the first variable with the same normalised key and value
-	tags := map[string]int{}
-	seen := map[string]int{}
-	n := 0
+	// hash suffix -> its pre-image (normalised key, value)
+	tags := map[string][2]string{}
 
 	for _, v := range c.Env {
 		if !strings.HasPrefix(v.Name, c20Prefix) {
@@ -715,20 +748,13 @@ func c20Run(c c20Case, dir string) (c20Obs, string, string) {
 		}
 
 		nk := c20RealNorm(v.Name)
-		id := nk + "\x00" + v.Val
-
-		if _, ok := seen[id]; !ok {
-			seen[id] = n
-		}
 
 		func() {
 			defer func() { recover() }() //nolint:errcheck
 
 			_, _, hash := convert(nk, v.Val, nk)
-			tags[hash] = seen[id]
+			tags[hash] = [2]string{nk, v.Val}
 		}()
-
-		n++
 	}
 
 	file := ""
